@@ -6,6 +6,7 @@ import (
 	"context"
 	"fmt"
 	"os"
+	"reflect"
 	"sort"
 	"strconv"
 	"strings"
@@ -159,6 +160,17 @@ func (g *vwGen) events() []*historypb.HistoryEvent {
 		evs = append(evs, &historypb.HistoryEvent{EventId: int64(g.rng.below(1000)), EventType: enumspb.EVENT_TYPE_UPSERT_WORKFLOW_SEARCH_ATTRIBUTES,
 			Attributes: &historypb.HistoryEvent_UpsertWorkflowSearchAttributesEventAttributes{UpsertWorkflowSearchAttributesEventAttributes: &historypb.UpsertWorkflowSearchAttributesEventAttributes{
 				SearchAttributes: &commonpb.SearchAttributes{IndexedFields: fields}}}})
+		if g.rng.chance(1, 2) {
+			// ... next to a second container of the same batch whose keys have no mapping at all, before or after it
+			other := &historypb.HistoryEvent{EventId: int64(g.rng.below(1000)), EventType: enumspb.EVENT_TYPE_UPSERT_WORKFLOW_SEARCH_ATTRIBUTES,
+				Attributes: &historypb.HistoryEvent_UpsertWorkflowSearchAttributesEventAttributes{UpsertWorkflowSearchAttributesEventAttributes: &historypb.UpsertWorkflowSearchAttributesEventAttributes{
+					SearchAttributes: &commonpb.SearchAttributes{IndexedFields: map[string]*commonpb.Payload{"UnmappedOnlyA": {Data: []byte("x")}, "UnmappedOnlyB": {Data: []byte("y")}}}}}}
+			if g.rng.chance(1, 2) {
+				evs = append(evs, other)
+			} else {
+				evs = append([]*historypb.HistoryEvent{other}, evs...)
+			}
+		}
 	}
 	return evs
 }
@@ -613,6 +625,21 @@ type vwStep struct {
 	blob bool // the field is an event blob: the path continues inside a HistoryEvent of that blob
 }
 
+// vwPrependNilBlob replaces the first element of every top-level list-valued blob field by ... nothing decodable: Go protobuf
+// lists cannot hold nil messages through reflection, so the typed slice is reached through the generated struct.
+func vwPrependNilBlob(m proto.Message, paths [][]vwStep) bool {
+	done := false
+	rv := reflect.ValueOf(m).Elem()
+	for i := 0; i < rv.NumField(); i++ {
+		f := rv.Field(i)
+		if f.Kind() == reflect.Slice && f.Type().Elem() == reflect.TypeOf((*commonpb.DataBlob)(nil)) && f.Len() > 0 && f.CanSet() {
+			f.Index(0).Set(reflect.Zero(f.Type().Elem()))
+			done = true
+		}
+	}
+	return done
+}
+
 // vwNsPaths enumerates the paths from a message type to every namespace field reachable from it (through singular,
 // repeated and map-valued message fields, oneof alternatives and event blobs); a message type occurs at most `limit`
 // times on one path (failure cause chains: twice).
@@ -827,17 +854,31 @@ func TestVerifWalker(t *testing.T) {
 					}
 					// the same request through the real interceptor, once as it is and once next to a history blob the proxy
 					// cannot decode (in every top-level blob field of the request type): it must not reach the handler
-					for _, damage := range []bool{false, true} {
+					for _, dmode := range []string{"", "garbage", "empty", "nil"} {
+						damage := dmode != ""
 						b2 := proto.Clone(bad)
+						if damage {
+							// the request's own namespace is an allowed one: only the name at the path is forbidden
+							if fd := b2.ProtoReflect().Descriptor().Fields().ByName("namespace"); fd != nil && fd.Kind() == protoreflect.StringKind && !fd.IsList() &&
+								!(len(path) == 1 && path[0].fd == fd) {
+								b2.ProtoReflect().Set(fd, protoreflect.ValueOfString("orig"))
+							}
+						}
 						if damage {
 							n := 0
 							for _, p2 := range paths {
 								if len(p2) > 1 && p2[0].blob && !(p2[0].fd == path[0].fd && !p2[0].fd.IsList()) {
 									garbage := &commonpb.DataBlob{EncodingType: enumspb.ENCODING_TYPE_PROTO3, Data: []byte("\xff\xfe\x00 not a history batch")}
+									if dmode == "empty" {
+										garbage = &commonpb.DataBlob{} // an empty batch: nothing to decode, nothing to check - and nothing to stop at
+									}
+									if dmode == "nil" && !p2[0].fd.IsList() {
+										continue
+									}
 									fd := p2[0].fd
 									if fd.IsList() {
 										l := b2.ProtoReflect().Mutable(fd).List()
-										if l.Len() == 0 || string(l.Get(l.Len()-1).Message().Interface().(*commonpb.DataBlob).Data) != string(garbage.Data) {
+										if l.Len() == 0 || dmode != "garbage" || string(l.Get(0).Message().Interface().(*commonpb.DataBlob).Data) != string(garbage.Data) {
 											// put the damaged batch FIRST: the walk meets it before the forbidden name
 											old := make([]protoreflect.Value, l.Len())
 											for i := range old {
@@ -860,13 +901,21 @@ func TestVerifWalker(t *testing.T) {
 								continue
 							}
 							stats["acl_paths_damaged_blob"]++
+							if dmode == "nil" {
+								// a nil entry in front of the list (what a sparse batch list looks like after decoding)
+								if msgWithNil := vwPrependNilBlob(b2, paths); !msgWithNil {
+									continue
+								}
+							}
 						}
 						ic := NewAccessControlInterceptor(logger, nil, []string{"orig"})
 						reached := false
 						_, ierr := ic.Intercept(context.Background(), b2, &grpc.UnaryServerInfo{FullMethod: root.method},
 							func(ctx context.Context, req any) (any, error) { reached = true; return nil, nil })
+						// an undecodable blob may be answered with any refusal; an empty or nil batch in front changes nothing: the
+						// forbidden name must still be refused
 						if reached || ierr == nil {
-							fmt.Fprintf(w, "PATHACL %s %s forbidden name reached the handler through the interceptor (undecodable blob beside it: %v)\n", id, vwPathString(path), damage)
+							fmt.Fprintf(w, "PATHACL %s %s forbidden name reached the handler through the interceptor (blob placed in front of it: %q)\n", id, vwPathString(path), dmode)
 						}
 					}
 				}
